@@ -86,6 +86,10 @@ func tokenizeStream(src io.Reader, normalize bool, dict *dictionary, updateDict 
 	line := 1 // 1s-based count
 	deferredEOL := false
 	deferredWord := false
+	// deferredLines counts the line breaks swallowed by trailing hyphens that have
+	// not been added to the line count yet (a word can be continued over several
+	// lines).
+	deferredLines := 0
 	// the tokenizer uses a local dictionary to conserve memory while
 	// analyzing the input doc to avoid polluting the global dictionary
 	ld := newDictionary()
@@ -125,6 +129,7 @@ func tokenizeStream(src io.Reader, normalize bool, dict *dictionary, updateDict 
 					if obuf[len(obuf)-1] == '-' {
 						obuf = obuf[0 : len(obuf)-1]
 						deferredEOL = true
+						deferredLines++
 						continue
 					}
 
@@ -148,10 +153,10 @@ func tokenizeStream(src io.Reader, normalize bool, dict *dictionary, updateDict 
 						Line: line})
 				}
 				line++
-				if deferredWord {
-					// The hyphenated word completed at the end of this line, so the
-					// line break that was swallowed by the hyphen is accounted for now.
-					deferredWord = false
+				// A hyphenated word completed at the end of this line (or its hyphen was
+				// followed by nothing but blank space): the line breaks that were
+				// swallowed by the hyphens are accounted for now.
+				for ; deferredLines > 0; deferredLines-- {
 					if !normalize {
 						doc.Tokens = append(doc.Tokens, indexedToken{
 							ID:   dict.getIndex(eol),
@@ -159,6 +164,8 @@ func tokenizeStream(src io.Reader, normalize bool, dict *dictionary, updateDict 
 					}
 					line++
 				}
+				deferredWord = false
+				deferredEOL = false
 				continue
 			}
 
@@ -197,7 +204,21 @@ func tokenizeStream(src io.Reader, normalize bool, dict *dictionary, updateDict 
 					linebuf = nil
 					deferredWord = false
 					// Increment the line count now so the remainder token is credited
-					// to the previous line number.
+					// to the previous line number. A word continued over more than two
+					// lines swallowed more than one line break.
+					for ; deferredLines > 1; deferredLines-- {
+						line++
+						if !normalize {
+							tokID := dict.getIndex(eol)
+							if tokID == unknownIndex {
+								tokID = dict.add(eol)
+							}
+							doc.Tokens = append(doc.Tokens, indexedToken{
+								ID:   tokID,
+								Line: line})
+						}
+					}
+					deferredLines = 0
 					line++
 				}
 				obuf = make([]byte, 0)
